@@ -50,17 +50,21 @@ CLAIMS = {
              "tensor-side offset and size equal the grid-side ones for all sizes and arguments; a grid whose origin is the old "
              "sample `first` places new sample j at old sample j+first. Offsets are compared exactly with the implementation "
              "(index-coded data, distinct per-image grids); ramps are pushed through every operation and compositions of up to 3 "
-             "with a geometric validity mask. Resizing of a world-linear image reproduces it at the new sample positions (C04_resize_ramp, C04_sample_ramp). One known finding: compositions through grids with fractional size (data and grid sizes disagree).",
+             "with a geometric validity mask. Resizing of a world-linear image reproduces it at the new sample positions (C04_resize_ramp, C04_sample_ramp). The options of Image / ImageBatch.pyramid (finest-level spacing, explicit align_corners different from the grid's flag) are covered by an oracle that ties every level to Grid.pyramid of the requested convention and found the defect repaired by 8cc5ad1. One known finding: compositions through grids with fractional size (data and grid sizes disagree).",
         ref="5 C04"),
     "C05": dict(
         technique="Lean 4 theorems: deepali's sampling coordinate pipeline = ITK physToIdx∘idxToPhys (any grid pair, "
                   "either align_corners), plus correspondence with the implementation and SimpleITK",
-        text="7 theorems: for every target sample the continuous source index handed to the interpolator equals ITK's "
+        text="14 theorems: for every target sample the continuous source index handed to the interpolator equals ITK's "
              "physical-point round trip for any pair of valid oriented grids in any dimension; hence sampled values equal "
              "the ITK specification for all image contents; inside the field of view padding is invisible; self-sampling "
-             "is the identity; constant padding = constant extension. grid_sample's own semantics is modelled and "
-             "validated against torch every run; values are compared with the implementation (linear/nearest x "
-             "zeros/border/constant x Image/batch forms) and with SimpleITK.Resample inside the field of view.",
+             "is the identity; constant padding = constant extension; the module entry points AlignImage / TransformImage "
+             "(Grid.points + SampleImage._matrix, which sample with the TARGET grid's flag) give the same ITK value for EVERY "
+             "axes argument incl. the default, through both branches of Grid.transform, and equal ImageBatch.sample. "
+             "grid_sample's own semantics is modelled and validated against torch every run; values are compared with the "
+             "implementation (linear/nearest x zeros/border/constant x Image/batch/module forms) and with SimpleITK.Resample "
+             "inside the field of view. Theorems and streams assume >= 2 samples per axis; single-slice volumes are covered by "
+             "an oracle against the in-plane ITK resampling: known finding F-05b (align_corners=True divides by n-1 = 0; 6 keys).",
         ref="5 C05"),
     "C06": dict(
         technique="Lean 4 theorems on the model of spatial/base|linear|composite|transformer (parameter->tensor per class, "
@@ -147,7 +151,7 @@ CLAIMS = {
              "second derivatives of affine fields vanish at every point for these three, any dilation and spacing form; "
              "second derivatives exact on quadratics in the interior; mixed derivatives symmetric; subset requests return "
              "the same values; jacobian_det = Matrix.det (D=2,3, with/without identity); divergence = trace; curl; Lie "
-             "bracket of affine fields = (AB-BA)x+(Ab-Ba). B-spline mode is tied by correspondence (its theorem is C14's).",
+             "bracket of affine fields = (AB-BA)x+(Ab-Ba). B-spline mode is tied by correspondence (its theorem is C14's). Integer-dtype inputs and the FlowFields / FlowField / modules.Curl entry points are covered by an oracle only (two defects found there were repaired: 57bfa1a, 22c2426).",
         ref="5 C12"),
     "C14": dict(
         technique="Lean 4 polynomial identities for the cubic B-spline weight tables, both evaluation algorithms, control "
